@@ -5,7 +5,8 @@ import unicodedata
 
 from ..core import regex as R
 from ..core.loader import AnalysisError
-from ..core.table import extract, grid_compare, outcome_at, outcome_value
+from ..core.table import (extract, grid_compare, outcome_at, outcome_value,
+                          guided_outcome)
 from ..core.termeval import ev, Raised, CannotEval
 from ..core.values import K, T, RegexV, show
 
@@ -327,21 +328,25 @@ def _slug(ctx):
                                   're.Pattern.sub'})
     outcomes, _i = extract(world, thunk, setup=setup)
     exact = [o for o in outcomes if o.exact]
-    if len(outcomes) != len(exact):
-        rep.undecided('R16.2', 'to_slug', 'inexact: %s' % [
-            o.notes for o in outcomes if not o.exact][:2])
-        return
+    singly = len(outcomes) != len(exact) or not outcomes
+    hooks = [_slug_hook, _rx_hook]
+
+    def slug_of(s):
+        if singly:
+            # the symbolic table is inexact (loops over the characters of
+            # the text): every input is followed through the code by itself
+            return guided_outcome(outcomes.recipe, {value: s}, hooks)
+        return outcome_value(outcome_at(outcomes, {value: s}, hooks),
+                             {value: s}, hooks)
     bad = None
     for s in SLUG_INPUTS:
         try:
-            o = outcome_at(outcomes, {value: s}, [_slug_hook, _rx_hook])
-            r1 = outcome_value(o, {value: s}, [_slug_hook, _rx_hook])
+            r1 = slug_of(s)
             if r1[0] != 'return' or not isinstance(r1[1], str):
                 bad = bad or (s, 'yields %r' % (r1,))
                 continue
             out = r1[1]
-            o2 = outcome_at(outcomes, {value: out}, [_slug_hook, _rx_hook])
-            r2 = outcome_value(o2, {value: out}, [_slug_hook, _rx_hook])
+            r2 = slug_of(out)
         except CannotEval as e:
             rep.undecided('R16.2', 'to_slug', 'cannot evaluate the '
                           'extracted term: %s' % e)
